@@ -57,9 +57,10 @@ META = {
                    "invariants for the loops: only TemplateSyntaxError/TemplateAssertionError leave, nodes are constructed with the right "
                    "number of fields and are complete, identifier fields come from `name` tokens, the tag / end-token stacks are balanced. "
                    "Compiler: emission obligations over every summarisable visitor (no raw template data in the generated source except "
-                   "generator-made identifiers and `<key>=`, Python-keyword keys go through the **{...} workaround). Defects on the unchanged "
-                   "tree (F5, F6, F7, F8, F9, F25 and a new one: a slice inside a multi-item subscript) are rediscovered by their own "
-                   "obligations, replayed natively and listed as known findings with proposed fixes where a small repair exists. The whole "
+                   "generator-made identifiers and `<key>=`, Python-keyword keys go through the **{...} workaround, template keywords differ "
+                   "from compiler-added ones). Defects found by these obligations: F5, F6, slice inside a multi-item subscript, collision with "
+                   "compiler-added keywords and non-ASCII digits in float literals are repaired in /repo (fix: commits, listed under `fixed`); "
+                   "F7, F8, F9, F25 remain and are listed as known findings with native replays. The whole "
                    "pipeline is additionally exercised by a bounded, seeded grammar-based fuzz (stand-in, never reported as proved).",
     "assumptions": [
         "A8/A9 the `re` module implements its documented matching semantics; match objects are modelled from the parse tree of the real patterns "
